@@ -428,6 +428,43 @@ def apply_fn_block(blk, unit_state):
             rules.append({'rule': 'R1-drop-log', 'text': dropped[:120]})
         i += 1
 
+    # ---- R5 normalisation: a `format!( .. )` spread over several lines by rustfmt is joined into the one-line form
+    # (white space only), so that the R5 redirections see the same text whichever way the call is laid out
+    i = 0
+    while i < len(lines):
+        l = lines[i]
+        if l.kind == 'code' and re.search(r'\bformat!\s*\($', l.text.rstrip()):
+            j = i
+            joined = l.text.rstrip()
+            depth = None
+            while True:
+                txt = '\n'.join(x.text for x in lines[i:j + 1])
+                mask = rustlex.code_mask(txt)
+                k = txt.index('format!')
+                k = txt.index('(', k)
+                try:
+                    close = rustlex.match_close(txt, mask, k)
+                except Exception:
+                    close = None
+                if close is not None and close >= 0:
+                    break
+                j += 1
+                if j >= len(lines) or lines[j].kind != 'code' or j - i > 12:
+                    close = None
+                    break
+            if close is not None and j > i:
+                parts = [lines[i].text.rstrip()] + [x.text.strip() for x in lines[i + 1:j + 1]]
+                one = parts[0] + parts[1]
+                for ptxt in parts[2:]:
+                    if ptxt.startswith(')'):
+                        one = one[:-1] if one.endswith(',') else one
+                        one += ptxt
+                    else:
+                        one += ' ' + ptxt
+                lines[i:j + 1] = [Line(one, l.src, 'code')]
+                rules.append({'rule': 'R5-join', 'text': one.strip()[:160]})
+        i += 1
+
     # ---- rewrites
     def do_rewrite(sarg, slines, regex):
         o, _ = parse_opts(sarg.split())
